@@ -100,6 +100,14 @@ def ensure_streams(app: appboot.App):
     a = mp4synth.make_track("audio", 48000, [96256, 575488, 48128, 144384], samples_per_segment=[94, 562, 47, 141],
                             seed=92, track_id=2, sample_durations_in="trun", seq_step=2)
     mp4synth.register(app, "syn9", "Synthetic with stream defaults", {"syn9_v1": v, "syn9_a1": a}, timing_from="syn9_v1")
+    # synshort / synlong: an audio track two whole segments shorter / longer than the video timing reference
+    # (static manifests only: in live mode the unchanged tree already breaks on these shapes – ledger D26)
+    for name_, n_a, sd_ in (("synshort", 4, 101), ("synlong", 8, 103)):
+        v = mp4synth.make_track("video", 240, [960] * 6, samples_per_segment=4, seed=sd_, track_id=1)
+        a = mp4synth.make_track("audio", 48000, [192512] * n_a, samples_per_segment=188, seed=sd_ + 1, track_id=2,
+                                sample_durations_in="trun")
+        mp4synth.register(app, name_, f"Synthetic, audio of {n_a} segments against 6",
+                          {f"{name_}_v1": v, f"{name_}_a1": a}, timing_from=f"{name_}_v1")
     # bbbd: the bbb fixture files once more (clear and encrypted twins), with a stored DRM selection and depth:
     # a manifest requested without any option lists the encrypted Representations and writes no drm= into the
     # media URLs, so the media handlers have to apply the same stored defaults
